@@ -43,6 +43,10 @@ type Event struct {
 	// adversarial variations
 	BadSig bool // signature does not verify
 	Slot   int  // EvBlockSL with a single signer: explicit slot+1 to place the signature in (0 = the signer's own slot)
+	// SrcHeightOff is added to the source height written into the header links (0 = correct); JunkLink appends a link
+	// without signatures that names the right source hash with a wrong source height
+	SrcHeightOff uint64
+	JunkLink     bool
 	Name   string
 }
 
@@ -60,6 +64,9 @@ func (e Event) String() string {
 		}
 		if e.BadSig {
 			s += "!badsig"
+		}
+		if e.JunkLink {
+			s += "+junk-link"
 		}
 		return s
 	case EvVote:
@@ -245,7 +252,11 @@ func (w *World) BlockWithLinks(e Event) *types.Block {
 		if order < 0 {
 			order = 0
 		}
-		cp.SupLinks.AddSupLink(w.HeightOf(e.Src), w.HashOf(e.Src), sig, order)
+		cp.SupLinks.AddSupLink(w.HeightOf(e.Src)+e.SrcHeightOff, w.HashOf(e.Src), sig, order)
+	}
+	if e.JunkLink {
+		// a link without any signature naming the right source hash with a wrong source height
+		cp.SupLinks = append(cp.SupLinks, &types.SupLink{SourceHeight: w.HeightOf(e.Src) + 7, SourceHash: w.HashOf(e.Src)})
 	}
 	return &cp
 }
